@@ -8,6 +8,7 @@ import (
 	"errors"
 	"time"
 
+	"github.com/BurntSushi/toml"
 	"github.com/robustirc/robustirc/internal/config"
 	"github.com/robustirc/robustirc/internal/ircserver"
 	"github.com/robustirc/robustirc/internal/robust"
@@ -18,9 +19,11 @@ var (
 	vParseErr error
 )
 
-// verifStub_configFromString stands for the TOML decoder: a function of its input.
-func verifStub_configFromString(input string) (config.Network, error) {
-	return vParsed, vParseErr
+// verifStub_tomlDecode stands for the TOML decoder (a function of its input);
+// config.FromString itself is the real code.
+func verifStub_tomlDecode(data string, v interface{}) (toml.MetaData, error) {
+	*(v.(*config.Network)) = vParsed
+	return toml.MetaData{}, vParseErr
 }
 
 func vNetwork() config.Network {
@@ -33,7 +36,9 @@ func vNetwork() config.Network {
 	c.CaptchaRequiredForLogin = nondetBool()
 	c.MaxSessions = nondetU64()
 	c.MaxChannels = nondetU64()
-	c.Banned = map[string]string{nondetString(2): nondetString(2)}
+	if nondetBool() {
+		c.Banned = map[string]string{nondetString(2): nondetString(2)}
+	}
 	c.TrustedBridges = map[string]string{nondetString(2): nondetString(2)}
 	c.WhitelistedOrigins = map[string]bool{nondetString(2): true}
 	return c
@@ -62,6 +67,18 @@ func verifHarness_C16_apply() {
 	}
 	want := vParsed
 	want.Revision = msg.Revision
-	verifAssert(verifDeepEq(i.Config, want, ""), "accepted-config-is-the-parsed-value-at-the-entry-revision")
+	verifAssert(verifDeepEq(i.Config, want, "nileqempty"), "accepted-config-is-the-parsed-value-at-the-entry-revision")
+	verifAssert(i.Config.Banned != nil, "accepted-config-has-a-ban-list")
 	verifAssert(fsm.sessionExpirationDur == time.Duration(vParsed.SessionExpiration), "accepted-config-updates-expiration")
+	// the installed configuration is this replica's own: a ban recorded in it (GLINE) must not
+	// leak into package-level defaults or into configurations installed later
+	probe := nondetString(2)
+	verifAssume(config.DefaultConfig.Banned[probe] == "")
+	i.Config.Banned[probe] = "gline"
+	verifAssert(config.DefaultConfig.Banned[probe] == "", "installed-config-does-not-share-state-with-defaults")
+	later, lerr := config.FromString(nondetString(3))
+	verifAssert(verifImplies(lerr == nil, later.Banned[probe] == vParsed.Banned[probe] || vParsed.Banned == nil), "later-configs-do-not-inherit-recorded-bans")
+	if lerr == nil && vParsed.Banned == nil {
+		verifAssert(later.Banned[probe] == "", "later-configs-do-not-inherit-recorded-bans")
+	}
 }
